@@ -550,11 +550,17 @@ class Exec(ExprMixin, CallMixin):
     outs = []
     # --- exit path(s)
     if view is not None:
-      exit_sides = [(hv.assume(kk == view.length), None)]
-      iter_st = hv.assume(kk < view.length)
+      live = getattr(view, 'live', False)
+      # a list is iterated live: CPython re-reads length and element at every step
+      length = hv.heap.len(view.src) if live else view.length
+      exit_sides = [(hv.assume(kk >= length if live else kk == length), None)]
+      iter_st = hv.assume(kk < length)
       body_starts = []
       if self.feasible(iter_st):
-        item = view.elt(kk)
+        if live == 'enumerate':
+          item = TupleImm([VInt(kk + view.start), hv.heap.elt(view.src, kk)])
+        else:
+          item = hv.heap.elt(view.src, kk) if live else view.elt(kk)
         for ao in self.assign(s.target, item, iter_st):
           body_starts.append(ao.st)
     else:
@@ -583,7 +589,7 @@ class Exec(ExprMixin, CallMixin):
           if spec.pivots is not None and self.obligations and not self.discovery:
             self.obligations[-1].pivots = spec.pivots(self.loop_ctx(bo.st, kk))
           self.check_loop_frame(spec, bs, bo.st, oid, s)
-          if view is not None and view.src is not None:
+          if view is not None and view.src is not None and not getattr(view, 'live', False):
             self.check_iter_unmodified(view, bs, bo.st, oid, s)
         elif bo.kind == 'break':
           outs.append(Outcome('normal', bo.st))
@@ -705,6 +711,8 @@ class Exec(ExprMixin, CallMixin):
                            patterns=[dv[rr][kk]]))
     facts.append(z3.ForAll([rr, ii], z3.Implies(is_VRef(le[rr][ii]), ref(le[rr][ii]) < heap.alloc),
                            patterns=[le[rr][ii]]))
+    from pyvc.calls import param_row_axiom
+    facts.append(param_row_axiom())
     from pyvc.sorts import SINGLETONS, SINGLETON_CLASS
     from pyvc.state import cls_fn
     for name, r in SINGLETONS.items():
